@@ -41,18 +41,19 @@ EdgeCount == LET RECURSIVE S(_)
              IN  S(n - 1)
 W(u, v) == w[<<u, v>>]
 Pairs(k) == VS(k) \X VS(k)
-Sym(a) == \A p \in DOMAIN a : a[p] = a[<<p[2], p[1]>>]
 
+\* the graph is chosen over the CANONICAL pairs (all ordered pairs when directed, u <= v when
+\* undirected), so that undirected graphs on 5 vertices are 2^15 and not 2^25 candidates
+Canon(k) == {p \in Pairs(k) : Directed \/ p[1] <= p[2]}
+CanonOf(u, v) == IF Directed \/ u <= v THEN <<u, v>> ELSE <<v, u>>
 Init ==
     /\ n \in 1 .. MaxN
-    /\ \E present \in [Pairs(n) -> BOOLEAN] :
-         /\ (~Directed) => Sym(present)
-         /\ adj = [u \in VS(n) |-> {v \in VS(n) : present[<<u, v>>]}]
-    /\ \E wt \in [Pairs(n) -> Weights] :
-         /\ (~Directed) => Sym(wt)
-         \* weights of absent pairs are irrelevant: fix them so that they do not multiply states
-         /\ \A p \in Pairs(n) : (p[2] \notin adj[p[1]]) => wt[p] = CHOOSE x \in Weights : TRUE
-         /\ w = wt
+    /\ \E present \in [Canon(n) -> BOOLEAN] :
+         /\ adj = [u \in VS(n) |-> {v \in VS(n) : present[CanonOf(u, v)]}]
+         /\ \E wt \in [Canon(n) -> Weights] :
+              \* weights of absent pairs are irrelevant: fix them so that they do not multiply states
+              /\ \A p \in Canon(n) : (~present[p]) => wt[p] = CHOOSE x \in Weights : TRUE
+              /\ w = [p \in Pairs(n) |-> wt[CanonOf(p[1], p[2])]]
     /\ src \in VS(n)
     /\ dist = [v \in VS(n) |-> IF v = src THEN 0 ELSE INF]
     /\ pred = [v \in VS(n) |-> IF Algo = "allpred" THEN <<>> ELSE IF Algo = "dijkstra" /\ v = src THEN src ELSE INF]
